@@ -45,7 +45,7 @@ BigNames == LET c == Ch
        [] OTHER -> <<"x">> \o Dec(i)]
 
 BigInit == \E j \in 1..Instances:
-             /\ k = IF j % 6 \in {4, 5} THEN BigMax - (j \div 6) ELSE Pick(BigMin..BigMax, j)
+             /\ k = IF j % 6 \in {4, 5} THEN BigMax - ((j \div 6) % 10) ELSE Pick(BigMin..BigMax, j)
              /\ p = Grow([i \in 1..k |-> 0], 2, k, j % 6, j)
              /\ sc = 101 + (j % 4)
              /\ zlast = [q |-> "init"]
